@@ -6,6 +6,7 @@ CONSTANTS
   Retention <- TraceRetention
   Lookback <- TraceLookback
   MaxPast <- TraceMaxPast
+  U <- TraceU
   OOT <- TraceOOT
   MFD <- TraceMFD
   Dev <- TraceDev
